@@ -4,7 +4,9 @@ PROP = {
     "modules": ["Proofs.C16"],
     "streams": [{"name": "strf"}],
     "rule": "strf: every string of length<=3 (quick) / 4 (thorough) over {a B space newline e-acute emoji < & \" % + ,} x every string "
-            "filter x integers -3..12 x every string argument of length<=2 over the same alphabet; every rune of the modelled case "
+            "filter x integers -3..12 x every string argument of length<=2 over the same alphabet (replace / replace_first: the "
+            "replacement is one of '', e-acute, 'a&' or the pattern itself, and for receivers of four characters the pattern has "
+            "length<=1; truncate / truncatewords: the default ellipsis and four given ones); every rune of the modelled case "
             "table; non-string receivers; random strings up to 200 bytes (raw bytes, all-plane UTF-8, entity/tag/escape-dense) with "
             "boundary integers up to MaxInt64/MinInt64; a case is non-trivial when the filter changes its receiver; distinct by case line",
     "trusted_base": COMMON_TB + [
@@ -12,25 +14,35 @@ PROP = {
         "StrF.entityLookup; outside them the model answers unmodelled (counted) and only the oracle checks the real code",
     ],
     "assumptions": [
-        "the models of Liquid/Filters/Str.lean describe filters/standard_filters.go after the fix patches D2, D3, D16: "
-        "checked by the strf stream on every run",
+        "the models of Liquid/Filters/Str.lean describe filters/standard_filters.go after the fix patches D2, D3, D16 and "
+        "float-receiver-text (cfb5cad): checked by the strf stream on every run",
+        "float receivers of string filters are outside the model of the strf ops (StrF.recvToString answers none: unmodelled); "
+        "only the receiver-to-text oracle of the strf stream checks them on the real code",
         "the generic argument conversion of values.Call (receiver to text, defaults) is modelled by StrF.recvToString and the "
         "wrappers' documented argument shapes; its full model belongs to the call glue",
     ],
 }
 
 TEXT = {
-    "text": "Theorems for every byte string (no length bound): append/prepend are concatenation; upcase/downcase are idempotent and "
-            "keep the character count on the modelled case table; capitalize upper-cases the first character only; "
+    "text": "Theorems for every byte string (no length bound): append/prepend are concatenation and remove is replace with the "
+            "empty string by definition of the model (append_spec, prepend_spec, remove_spec: rfl); upcase/downcase are idempotent and "
+            "keep the character count, and capitalize upper-cases the first character only, whenever the model answers (every rune "
+            "concerned in the modelled case table: the _partial theorems, hypothesis `= some t`); "
             "strip/lstrip/rstrip remove exactly a prefix/suffix of white-space characters and leave none; replace(s,p,p)=s, "
-            "remove=replace with the empty string and never grows; split and join are mutually inverse on separator-free pieces; "
+            "remove never grows; split inverts join on a non-empty list of non-empty pieces that share no byte with a non-empty "
+            "separator other than ' ' (for ' ': pieces free of ASCII white space), and join inverts split when the separator is not ' ' "
+            "and is empty or not a suffix of the text (split drops trailing empty pieces); "
             "size/slice/truncate count characters, slice and truncate never lengthen a string that fits, truncatewords leaves a text "
             "of at most n words unchanged; escape leaves no raw < > ' \" and every & starts an entity, unescape inverts escape, "
-            "escape_once is idempotent; url_decode inverts url_encode; valid UTF-8 is preserved. The models are compared with the "
+            "escape_once is idempotent whenever it is modelled (escape_once_idem_partial: no named entity outside amp lt gt quot apos); "
+            "url_decode inverts url_encode; valid UTF-8 receiver and arguments give valid UTF-8 for every filter but url_decode "
+            "(url_decode_not_preserving); nil, boolean, integer and string receivers convert to the text they print as "
+            "(recv_to_string: rfl on StrF.recvToString; floats are outside the model). The models are compared with the "
             "real filters (run through the expression evaluator) on exhaustive small strings and random inputs each run, and an "
             "independent oracle checks every clause on the real results.",
     "design_ref": "DESIGN.md 6 C16",
     "note": NOTE + "Case mapping outside ASCII/Latin-1/punctuation/emoji and named HTML entities other than amp lt gt quot apos are "
-            "outside the model (unmodelled, counted); there the oracle alone checks the real code.",
+            "outside the model (unmodelled, counted), and so are float receivers of string filters (StrF.recvToString answers none); there the "
+            "oracle alone checks the real code (for float receivers: the receiver-to-text oracle).",
     "technique": "Lean 4 proof (induction over byte strings / runes) + model/implementation correspondence + implementation-side oracle",
 }
